@@ -858,6 +858,14 @@ namespace mon
          return rs.st == 3 ? 1 : 2;
       }
 
+      bool g_skip_lazy_class = false;
+      bool has_position_rule( const grammar& g )
+      {
+         for( std::size_t i = 0; i < g.nn; ++i )
+            if( g.nodes[ i ].k == ref::BOF || g.nodes[ i ].k == ref::BOL ) return true;
+         return false;
+      }
+
       // ---------------------------------------------------------------- C07: input classes, buffering, chunking
       struct obs { int st; std::size_t end_byte; std::string what; std::vector< bact > acts; };
       std::size_t g_need_all = 0;       // max over all require() calls of offset_in_buffer + amount
@@ -1001,8 +1009,11 @@ namespace mon
             }
          };
          if( cfg.bufset == 0 ) {
-            runreq l{ gb.begin(), gb.end(), 1 };
-            check( base, observe( g, l ), "memory_input-lazy" );
+            if( g_skip_lazy_class ) cell( "skipped:lazy-run-of-bof-or-bol-inside-rematch-(known-finding)" );
+            else {
+               runreq l{ gb.begin(), gb.end(), 1 };
+               check( base, observe( g, l ), "memory_input-lazy" );
+            }
             buffer_family( 2, 1, "buffer_input-chunk1" );
             buffer_family( 3, 3, "buffer_input-chunk3" );
          }
@@ -1227,8 +1238,20 @@ namespace mon
       install_hooks();
       if( cfg.buf ) install_buf_hooks();
       const std::size_t cap = cfg.buf ? ( V.thorough() ? 6000 : 1500 ) : ( V.thorough() ? 20000 : 1500 );
+      // seconds per case before the watchdog fires; the runner sets VERIF_CASE_ALARM for its single re-run of a case
+      unsigned case_alarm = 30;
+      if( const char* a = std::getenv( "VERIF_CASE_ALARM" ) ) case_alarm = unsigned( std::max( 1, std::atoi( a ) ) );
       for( std::size_t gi = 0; gi < ng; ++gi ) {
          const grammar& g = gs[ gi ];
+         // known finding (C06/C07, DESIGN section 6 row 6): inside the later rules of rematch<> / minus<> a lazily tracked input
+         // restarts at 0:1:1, so a position-dependent rule there (bof, bol) matches where it must not -- up to non-termination
+         // of plus< bof >. Lazy runs of such grammars are not made; the finding is reported by the position monitors instead.
+         const bool lazy_pos_rematch = ( g.features & GF_LAZY_UNSAFE ) && has_position_rule( g );
+         g_skip_lazy_class = lazy_pos_rematch;
+         if( lazy_pos_rematch && cfg.lazy && !cfg.buf ) {
+            cell( "skipped:lazy-run-of-bof-or-bol-inside-rematch-(known-finding)" );
+            continue;
+         }
          if( ( g.features & GF_PRED_DUP ) && cfg.variant >= 3 && !cfg.plain ) {
             // "equivalent to" an expansion that repeats a sub-rule inside a predicate is only defined for
             // side-effect-free sub-rules: no vetoing / throwing attachments on these grammars
@@ -1239,7 +1262,7 @@ namespace mon
          if( cfg.ana ) {
             // C11: does the analysis certify a grammar for which some input exhibits a cycle without progress?
             if( !V.begin_case( "C11", g.profile ) ) continue;
-            ::alarm( 120 );
+            ::alarm( std::max( 120u, case_alarm ) );
             V.set_extra( g.name );
             const long problems = g.analyze ? g.analyze() : -1;
             input_enum en;
@@ -1308,7 +1331,7 @@ namespace mon
             }
             ++n;
             if( !V.begin_case( "C03", g.profile, input.data(), input.size() ) ) continue;
-            ::alarm( 30 );   // wall-clock backstop: its firing is recorded as a hang of this case
+            ::alarm( case_alarm );   // wall-clock backstop: its firing is recorded as a hang of this case (the runner re-runs the case once with a long limit)
             bool nontrivial = false;
             if( cfg.buf ) run_buf_case( g, cfg, input, nontrivial );
             else run_case( g, cfg, input, int( ( n + g.salt ) & 1 ), nontrivial );
